@@ -489,6 +489,11 @@ fn gen_run_tree(expect: &mut Vec<([u8; 4], u16, Vec<u8>, u32)>) -> Tree {
     };
     let protos = |with_arp: u64| {
         let mut p = vec![vec![(s("name"), s("IPv4"))], vec![(s("name"), s("UDP"))]];
+        // auto-protocol='true' supplies IPv4 (and ARP) when the description leaves them out
+        if with_arp == 2 && sim::chance(1, 2) {
+            p.remove(0);
+            sim::count("probe_ipv4_left_to_auto_protocol");
+        }
         if with_arp == 1 {
             p.push(vec![(s("name"), s("ARP"))]);
         }
